@@ -5,7 +5,7 @@ import itertools
 DRIVER = 'harness.drivers.bridge'
 COMP = 'bridge'
 TRACE = 'BridgeTrace'
-CODES = ['n', 'z', 'e', 'f', 'l', 'a', 'b', 'o', 't', 'a', 'n']
+CODES = ['n', 'z', 'e', 'f', 'l', 'a', 'b', 'o', 't', 'a', 'n', 'w']
 
 
 def strat(rng):
@@ -34,6 +34,18 @@ def systematic():
                         for own in ('fresh', 'reused'):
                             out.append({'which': which, 'src': {'kind': kind, 'xs': xs, 'fail_at': fail_at},
                                         'own_loop': own, 'strategy': {'kind': 'replay', 'prefix': []}})
+    # an element that compares equal to anything, at every position; a second bridge used in mid-iteration
+    for which, kinds in (('to_async', ['list', 'gen', 'iter']), ('to_sync', ['agen'])):
+        for kind in kinds:
+            for xs in (['w'], ['w', 'a'], ['a', 'w', 'b'], ['a', 'n', 'w']):
+                for fail_at in ([None] if kind == 'list' else [None, len(xs)]):
+                    out.append({'which': which, 'src': {'kind': kind, 'xs': xs, 'fail_at': fail_at},
+                                'strategy': {'kind': 'replay', 'prefix': []}})
+            for xs in (['a'], ['a', 'n', 'b']):
+                for fail_at in ([None] if kind == 'list' else [None, 1]):
+                    for delay in (0.0, 1.0):
+                        out.append({'which': which, 'src': {'kind': kind, 'xs': xs, 'fail_at': fail_at, 'steps': [delay] * len(xs)},
+                                    'twin': True, 'strategy': {'kind': 'replay', 'prefix': []}})
     return out
 
 
@@ -55,6 +67,8 @@ def gen(rng, n):
               'consume_delay': rng.choice([0.0, 0.0, 0.0, 1.0, 3.0]), 'strategy': strat(rng)}
         if which == 'to_sync' and rng.random() < 0.3:
             sc['own_loop'] = rng.choice(['fresh', 'reused'])
+        if rng.random() < 0.15:
+            sc['twin'] = True      # a second bridge is opened and consumed after the first element of this one
         if which == 'to_sync' and rng.random() < 0.4:      # the consuming thread is descheduled for a while in the middle of a step
             sc['stalls'] = {'L1': [rng.randint(1, 30), rng.choice([0.5, 1.0, 3.0, 6.0])]}
         out.append(sc)
